@@ -1677,7 +1677,16 @@ func (tx *Transaction) auditLogCollectFiles() []plugintypes.AuditLogTransactionR
 // This method helps the GC to clean up the transaction faster and release resources
 // It also allows caches the transaction back into the sync.Pool
 func (tx *Transaction) Close() error {
-	defer tx.WAF.txPool.Put(tx)
+	if tx.matchedRules == nil {
+		// Already closed and handed back to the pool (newTransaction always sets a
+		// non-nil slice): putting the object there a second time would let two
+		// later transactions share it.
+		return nil
+	}
+	defer func() {
+		tx.matchedRules = nil
+		tx.WAF.txPool.Put(tx)
+	}()
 
 	var errs []error
 	if environment.HasAccessToFS {
